@@ -1,7 +1,16 @@
 (* Dispatch table of the extracted model executable: one command per modelled function. *)
 From FV Require Import Base.Prelude Model.ScriptBlocks Model.MathFuncs gen.MathTable.
+From FV Require Import Model.CppLex Model.Consts.
 
 Definition dispatch (cmd : string) (arg : sexp) : sexp :=
   if String.eqb cmd "c15.gen" then ScriptBlocks.run_gen arg
   else if String.eqb cmd "c12.audit" then MathFuncs.audit math_env documented
+  else if String.eqb cmd "c18.render" then Consts.run_render arg
+  else if String.eqb cmd "c18.render_v0" then Consts.run_render_v0 arg
+  else if String.eqb cmd "c18.lex_prefix" then CppLex.run_lex_prefix arg
+  else if String.eqb cmd "c18.literal_at" then Consts.run_literal_at arg
+  else if String.eqb cmd "c18.bank" then Consts.run_bank arg
+  else if String.eqb cmd "c18.attribute" then Consts.run_attribute arg
+  else if String.eqb cmd "c18.book" then Consts.run_book arg
+  else if String.eqb cmd "c18.float_grammar" then Consts.run_float_grammar arg
   else s_tag "unknown-command" [SAtom cmd].
